@@ -139,6 +139,16 @@ def streamStep (s : SState) (line : String) : SState × String :=
         | _ => (acc.1, acc.2 ++ [th])) (s.os, [])
       (⟨os1, ths⟩, "ok")
     | none => (s, "bad-op")
+  | "burst" :: rest =>
+    -- writer ops back to back; the woken readers run only afterwards
+    let subs := (Driver.joinWith " " rest).splitOn " ; "
+    let (os1, outs, anyAdd) := subs.foldl (fun (acc : OS × List String × Bool) sub =>
+      let (o, r) := streamStepOS acc.1 sub
+      (o, acc.2.1 ++ [r], acc.2.2 || (sub.startsWith "add" && r == "ok"))) (s.os, [], false)
+    if anyAdd then
+      let (os2, ths) := wakeAll os1 s.threads
+      (⟨os2, ths⟩, Driver.joinWith "," outs)
+    else (⟨os1, s.threads⟩, Driver.joinWith "," outs)
   | "add" :: _ =>
     let (os1, out) := streamStepOS s.os line
     if out == "ok" then
